@@ -5,13 +5,23 @@
 #ifndef NPUSH
 #define NPUSH 1
 #endif
+#ifndef NPROD
 #define NPROD 2
+#endif
 mpscr_fifo_t* q;
-spsc_node_t nodes[NPROD][NPUSH];
-volatile uint64_t pushed_done[NPROD];
-volatile uint64_t pushed_begun[NPROD];
+spsc_node_t nodes[3][NPUSH];
+volatile uint64_t pushed_done[3];
+volatile uint64_t pushed_begun[3];
 
 void vm_init(void) { q = mpscr_fifo_create(NPROD); }
+void vm_setup(void) {
+  for (int p = 0; p < NPROD; p++) for (int i = 0; i < NPUSH; i++) nodes[p][i].next = (spsc_node_t*)vm_nondet();
+#ifdef COUNTER_NEAR_2_32
+  uint64_t c = vm_nondet();       /* the round-robin read counter has been running for a long time */
+  vm_assume(c >= 0xfffffffcUL && c <= 0x100000002UL);
+  q->counter = c;
+#endif
+}
 
 static inline void producer(int p) {
   for (int i = 0; i < NPUSH; i++) {
@@ -24,22 +34,25 @@ static inline void producer(int p) {
 }
 void vm_thread_1(void) { producer(0); }
 void vm_thread_2(void) { producer(1); }
+#if NPROD > 2
+void vm_thread_4(void) { producer(2); }
+#endif
 
 void vm_thread_3(void) {
-  uint64_t n0 = 0, n1 = 0;
-  while (n0 + n1 < NPROD * NPUSH) {
-    uint64_t b0 = pushed_done[0], b1 = pushed_done[1];
+  uint64_t n0 = 0, n1 = 0, n2 = 0;
+  while (n0 + n1 + n2 < NPROD * NPUSH) {
+    uint64_t b0 = pushed_done[0], b1 = pushed_done[1], b2 = pushed_done[2];
     spsc_node_t* n = mpscr_fifo_trypop(q);
     if (!n) {
-      uint64_t a0 = pushed_begun[0], a1 = pushed_begun[1];
-      vm_assert((b0 <= n0 && b1 <= n1) || a0 > b0 || a1 > b1, "C15 mpscr: pop reported empty although a completed push was pending and no push was in flight");
+      uint64_t a0 = pushed_begun[0], a1 = pushed_begun[1], a2 = pushed_begun[2];
+      vm_assert((b0 <= n0 && b1 <= n1 && b2 <= n2) || a0 > b0 || a1 > b1 || a2 > b2, "C15 mpscr: pop reported empty although a completed push was pending and no push was in flight");
       vm_spin();
     } else {
       uint64_t v = (uint64_t)n->data;
       uint64_t p = (v - 1) / 16, i = (v - 1) % 16;
       vm_assert(v != 0 && p < NPROD && i < NPUSH, "C15 mpscr: pop returned a value that was never pushed");
-      vm_assert(i == (p ? n1 : n0), "C15 mpscr: items of one producer not returned in push order / duplicated");
-      if (p) n1 = i + 1; else n0 = i + 1;
+      vm_assert(i == (p == 0 ? n0 : p == 1 ? n1 : n2), "C15 mpscr: items of one producer not returned in push order / duplicated");
+      if (p == 0) n0 = i + 1; else if (p == 1) n1 = i + 1; else n2 = i + 1;
       vm_progress();
     }
   }
